@@ -336,8 +336,28 @@ def fresh_class(n: str) -> str:
     return 'plain'
 
 
+def resubmitted(sources: dict, renamed_sources: dict, immutable=None):
+    """One live session (what the interactive mode does): the program is transpiled, then every module is replaced by its
+    renamed text under the same module path and transpiled again. Returns the second outputs or ('err', ...)."""
+    from mc.tranp.session import Session, VIEW_ENV
+    try:
+        view_env = None
+        if immutable:
+            view_env = {'immutable_param_types': list(VIEW_ENV['immutable_param_types']) + list(immutable)}
+        s = Session(dict(sources), view_env=view_env)
+        for m in sources:
+            s.transpile(m)
+        for m in sources:
+            s.sources[m] = renamed_sources[m]
+        for m in sources:
+            s.unload(m)
+        return ('ok', {m: s.transpile(m) for m in sources})
+    except Exception as e:  # noqa
+        return ('err', type(e).__name__, str(e)[:300])
+
+
 def worker(task):
-    pname, sources, base, mapping, role = task
+    pname, sources, base, mapping, role = task[:5]
     renamed_sources = {m: rename_python(src, mapping) for m, src in sources.items()}
     got = observe(renamed_sources, immutable_of(pname, mapping))
     viol = []
@@ -354,6 +374,18 @@ def worker(task):
             i = next((k for k in range(min(len(a), len(b))) if a[k] != b[k]), min(len(a), len(b)))
             viol.append((['output-differs', f'role={role}', f'fresh={kinds}'], f'{pname}/{m}: renaming {mapping}: line {i + 1}: expected {a[i] if i < len(a) else "<eof>"!r}, got {b[i] if i < len(b) else "<eof>"!r}', rep))
             break
+    if len(task) > 5 and task[5] and not viol and '@' not in pname:
+        # the renamed program submitted to the session that has just transpiled the original one
+        again = resubmitted(sources, renamed_sources)
+        if again[0] == 'err':
+            viol.append((['renamed-program-rejected', again[1], 'history=resubmitted', f'role={role}'], f'{pname}: renaming {mapping}, submitted after the original program in one session: {again[1]}: {again[2]}', rep))
+        else:
+            for m in sources:
+                if again[1][m] != outs[m]:
+                    a, b = outs[m].split('\n'), again[1][m].split('\n')
+                    i = next((k for k in range(min(len(a), len(b))) if a[k] != b[k]), min(len(a), len(b)))
+                    viol.append((['output-differs', 'history=resubmitted', f'role={role}'], f'{pname}/{m}: renaming {mapping}, submitted after the original program in one session: line {i + 1}: a fresh session gives {a[i] if i < len(a) else "<eof>"!r}, this one {b[i] if i < len(b) else "<eof>"!r}', rep))
+                    break
     want_table = {rename_text(k, mapping): rename_text(v, mapping) for k, v in base[2].items()}
     if want_table != table:
         ks = sorted(set(want_table) ^ set(table))
@@ -435,6 +467,13 @@ def run(ctx):
                 for f1, f2 in FRESH_PAIRS[:4]:
                     if f1 not in all_names and f2 not in all_names:
                         tasks.append((pname, sources, base, {i1: f1, i2: f2}, 'pair'))
+    # one renaming per identifier is also submitted to a live session that has transpiled the original program before
+    first = set()
+    for i, t in enumerate(tasks):
+        key = (t[0], tuple(t[3]))
+        if key not in first and len(t[3]) == 1:
+            first.add(key)
+            tasks[i] = t + (True,)
     # the configuration variants repeat only the class renamings (the configuration names classes)
     tasks = [t for t in tasks if '@' not in t[0] or t[4] == 'class']
     ctx.log(f'{len(tasks)} renamings over {sum(len(v) for v in idents.values())} identifiers')
@@ -464,5 +503,5 @@ def run(ctx):
 def replay(ctx, data):
     sources = PROGRAMS[data['program']]
     base = observe(sources, immutable_of(data['program'], {}))
-    viol, _ = worker((data['program'], sources, base, data['mapping'], 'replay'))
+    viol, _ = worker((data['program'], sources, base, data['mapping'], 'replay', True))
     ctx.merge(viol)
